@@ -581,15 +581,18 @@ def Env.get (env : Env) (n : Str) : Except Err Binding :=
 
 /-- the text of a single-quoted literal → the string it evaluates to.  NUL, LF, CR and a bare `'` cannot stand between
     the quotes; of the backslash escapes only `\\` and `\'` (the two the generator emits) are modelled, any other is an error. -/
-def unquote : Str → Except Err Str
-  | [] => .ok []
-  | c :: cs =>
-    if c = 92 then
-      match cs with
-      | d :: ds => if d = 92 ∨ d = 39 then (match unquote ds with | .ok r => .ok (d :: r) | .error e => .error e) else .error .other
-      | [] => .error .other
-    else if c = 0 ∨ c = 10 ∨ c = 13 ∨ c = 39 then .error .other
-    else (match unquote cs with | .ok r => .ok (c :: r) | .error e => .error e)
+def unquoteAux : Bool → Str → Except Err Str       -- the flag: the previous character was a backslash still to be resolved
+  | false, [] => .ok []
+  | true, [] => .error .other
+  | false, c :: cs =>
+      if c = 92 then unquoteAux true cs
+      else if c = 0 ∨ c = 10 ∨ c = 13 ∨ c = 39 then .error .other
+      else (match unquoteAux false cs with | .ok r => .ok (c :: r) | .error e => .error e)
+  | true, c :: cs =>
+      if c = 92 ∨ c = 39 then (match unquoteAux false cs with | .ok r => .ok (c :: r) | .error e => .error e)
+      else .error .other
+
+def unquote (s : Str) : Except Err Str := unquoteAux false s
 
 def quotedOk (s : Str) : Bool := (unquote s).isOk
 
